@@ -60,12 +60,44 @@ def run_cases(mod, cases, use_model, rep):
             raise
         except Exception as exc:  # driver crashed: correspondence broken
             model_err = f"{type(exc).__name__}: {exc}"
-    for c, (a, b) in zip(cases, spans):
-        impl = pyside.run_case(c)
+    impls = run_impl(cases)
+    for c, (a, b), impl in zip(cases, spans, impls):
         rec = {"case": c, "impl": impl,
                "model": model_out[a:b] if model_out is not None else None}
         records.append(rec)
     return records, model_err
+
+
+def _run_one(c):
+    import pyside
+    base = set(pyside.COVER)
+    try:
+        out = pyside.run_case(c)
+    except pyside.CaseTimeout as exc:
+        return ("TIMEOUT", str(exc)), []
+    return out, sorted(pyside.COVER - base)
+
+
+def run_impl(cases):
+    """implementation side of every case; cases are independent of each other
+    (each starts from the post-import state), so they are spread over worker
+    processes - the result does not depend on the number of workers"""
+    import multiprocessing
+    import pyside
+    jobs = int(os.environ.get("VERIF_JOBS", "0") or 0) or min(12, os.cpu_count() or 1)
+    if jobs <= 1 or len(cases) < 8:
+        outs = [_run_one(c) for c in cases]
+    else:
+        ctx = multiprocessing.get_context("fork")
+        with ctx.Pool(jobs) as pool:
+            outs = pool.map(_run_one, cases, chunksize=max(1, len(cases) // (jobs * 8)))
+    res = []
+    for out, cov in outs:
+        if isinstance(out, tuple) and out and out[0] == "TIMEOUT":
+            raise Timeout(out[1])
+        pyside.COVER.update((f, n) for f, n in cov)
+        res.append(out)
+    return res
 
 
 def main():
